@@ -65,7 +65,7 @@ func checkC15(c *Ctx) {
 	c.Expect("R1", 15)
 
 	checkTierRebuild(c, "R2")
-	c.Expect("R2", 4)
+	c.Expect("R2", 2)
 
 	checkTierIdentity(c, "R8")
 	checkSnapshotImmutable(c, "R9")
@@ -148,24 +148,61 @@ func checkC15(c *Ctx) {
 			return
 		}
 		v := stripConv(store.Call.Args[1])
+		// the list may be assembled by a helper (sortedByAddr(map)): look at what the helper returns
+		if hc, ok := v.(*ssa.Call); ok {
+			if g := calleeFn(hc.Common()); g != nil && isModFn(g) && g.Blocks != nil {
+				var rets []ssa.Value
+				eachInstr(g, func(_ *ssa.BasicBlock, _ int, in ssa.Instruction) {
+					if r, ok := in.(*ssa.Return); ok && len(r.Results) == 1 {
+						rets = append(rets, r.Results[0])
+					}
+					if call, ok := in.(*ssa.Call); ok && isCallTo(call, "sort.Strings") {
+						sorted = call
+					}
+				})
+				if len(rets) == 1 {
+					v = stripConv(rets[0])
+				}
+			}
+		}
 		fresh := derives(v, func(x ssa.Value) bool { _, ok := x.(*ssa.MakeSlice); return ok })
 		fromOld := derives(v, func(x ssa.Value) bool {
 			cl, ok := x.(*ssa.Call)
 			return ok && isCallTo(cl, "(*sync/atomic.Value).Load")
 		})
 		c.Check(fresh && !fromOld, "R4", "published slice is fresh", store.Pos(), "built with make() in this call, never derived from the previously published slice", "the slice that is published is (or can be) the one handed out before: readers holding a Healthy() result see it overwritten (duplicates, unsorted views)")
-		c.Check(sorted != nil && instrDominates(sorted, store), "R4", "keys sorted before publishing", store.Pos(), "sort.Strings precedes the store", "the host list is published without sorting by address")
+		c.Check(sorted != nil && (sorted.Parent() != store.Parent() || instrDominates(sorted, store)), "R4", "keys sorted before publishing", store.Pos(), "sort.Strings precedes the store", "the host list is published without sorting by address")
 		// elements are hostMap[k] for k over the sorted keys
 		okElems := false
 		if sorted != nil {
 			keys := sorted.Call.Args[0]
-			okElems = derives(v, func(x ssa.Value) bool {
-				lk, ok := x.(*ssa.Lookup)
-				if !ok {
-					return false
+			isKeyed := func(x ssa.Value) bool {
+				return derives(x, func(x2 ssa.Value) bool {
+					lk, ok := x2.(*ssa.Lookup)
+					if !ok {
+						return false
+					}
+					return derives(lk.Index, func(y ssa.Value) bool { return y == keys || sameSliceVar(y, keys) })
+				})
+			}
+			okElems = isKeyed(v)
+			// hosts := make(..., len(keys)); hosts[i] = tier[keys[i]]: element stores into the made slice
+			if mk, ok := v.(*ssa.MakeSlice); ok && !okElems {
+				n, good := 0, true
+				for _, r := range *mk.Referrers() {
+					if ia, ok := r.(*ssa.IndexAddr); ok {
+						for _, r2 := range *ia.Referrers() {
+							if st, ok := r2.(*ssa.Store); ok && st.Addr == ssa.Value(ia) {
+								n++
+								if !isKeyed(st.Val) {
+									good = false
+								}
+							}
+						}
+					}
 				}
-				return derives(lk.Index, func(y ssa.Value) bool { return y == keys || sameSliceVar(y, keys) })
-			})
+				okElems = n > 0 && good
+			}
 		}
 		c.Check(okElems, "R4", "elements looked up by the sorted keys", store.Pos(), "hosts[i] = tier[keys[i]]", "the published list is not built from the sorted key list (order/uniqueness not by construction)")
 	}()
@@ -183,12 +220,12 @@ func checkC15(c *Ctx) {
 		eachInstr(fn, func(_ *ssa.BasicBlock, _ int, in ssa.Instruction) {
 			switch x := in.(type) {
 			case *ssa.MapUpdate:
-				if f, _ := loadedField(x.Map); f == hm || f == hb {
+				if isTierMapValue(x.Map, hm, hb) {
 					tierInserters[fn] = true
 				}
 			case *ssa.Call:
 				if isBuiltin(x, "delete") {
-					if f, _ := loadedField(x.Call.Args[0]); f == hm || f == hb {
+					if isTierMapValue(x.Call.Args[0], hm, hb) {
 						tierDeleters[fn] = true
 					}
 				}
@@ -531,12 +568,12 @@ func checkTierRebuild(c *Ctx, rule string) {
 		eachInstr(fn, func(_ *ssa.BasicBlock, _ int, in ssa.Instruction) {
 			switch x := in.(type) {
 			case *ssa.MapUpdate:
-				if f, _ := loadedField(x.Map); f == hm || f == hb {
+				if isTierMapValue(x.Map, hm, hb) {
 					writes = append(writes, in)
 				}
 			case *ssa.Call:
 				if isBuiltin(x, "delete") {
-					if f, _ := loadedField(x.Call.Args[0]); f == hm || f == hb {
+					if isTierMapValue(x.Call.Args[0], hm, hb) {
 						writes = append(writes, in)
 					}
 				}
@@ -597,7 +634,7 @@ func checkTierIdentity(c *Ctx, rule string) {
 			if m == nil {
 				return
 			}
-			if f, _ := loadedField(m); f == hm || f == hb {
+			if isTierMapValue(m, hm, hb) {
 				for _, prm := range fn.Params {
 					if _, isSl := prm.Type().Underlying().(*types.Slice); isSl {
 						mutators[fn] = true
@@ -1086,4 +1123,16 @@ func checkSnapshotImmutable(c *Ctx, rule string) {
 	if n == 0 {
 		c.Unresolved(rule, "no reader of Healthy()")
 	}
+}
+
+// isTierMapValue: v is one of the two healthy-tier maps - loaded from its field, or obtained from a getter that returns
+// one of them (healthyTier(typ)).
+func isTierMapValue(v ssa.Value, hm, hb *types.Var) bool {
+	if f, _ := loadedField(v); f == hm || f == hb {
+		return f != nil
+	}
+	return derivesIP(v, func(y ssa.Value) bool {
+		f, _ := loadedField(y)
+		return f != nil && (f == hm || f == hb)
+	}, 2)
 }
